@@ -9,6 +9,7 @@ corr-S  : programs mixing load/store/strobe/csleep/asm with ordinary code: the e
           prescribes (extracted CSem), and final states must agree; marked(opt) = marked(gen)
 """
 import re
+import os
 from lib.common import *
 from lib.asmcorr import *
 from lib.gen_c import gen_program, Prog
@@ -75,6 +76,15 @@ def run(ctx):
     quick = ctx.tier == 'quick'
     rng = ctx.rng
     ctx.proof_stage('Props.C18', THEOREMS)
+    # the hardware-statement templates (Model/GenHw.v: traces and cycles proved on Sem.run) and their pinned listings
+    hw_v = os.path.join(COQ, 'Props', 'C18hw.v')
+    hw_mism = []
+    if os.path.exists(hw_v):
+        ctx.proof_stage('Props.C18hw', re.findall(r'^Theorem (\w+)', open(hw_v).read(), re.M))
+        from lib.gentpl import run_gentpl
+        ntpl_, allm_ = run_gentpl()
+        hw_mism = [m_ for m_ in allm_ if m_['id'].startswith('hlisting')]
+        ctx.cov['correspondence']['corr-M hardware-statement templates'] = {'templates': 5, 'mismatches': len(hw_mism), 'exhaustive': True}
     # ---------------- corr-M: csleep table, exhaustive
     args_range = list(range(-3, 15))
     jobs = ''.join(compile_job('cs%d' % n, 'void main() { csleep(%d); }' % n, args=['-O0'], want=['funcs']) for n in args_range)
@@ -260,6 +270,8 @@ def run(ctx):
     known = {f['id']: f for f in ctx.findings if f.get('status') == 'open'}
     for v in allv[:3]:
         ctx.violation('hw', v)
+    if hw_mism and not allv:
+        ctx.violation_noinput('Model/GenHw.v no longer matches the generator: %s' % json.dumps(hw_mism[0])[:1500], 'corr-M:gen_hw')
     if table_mism and not allv:
         ctx.violation_noinput('csleep table of Model/Csleep.v no longer matches generate_csleep_statement: %s' % json.dumps(table_mism)[:2000],
                               'corr-M:csleep_table')
